@@ -11,7 +11,7 @@
 // catch_unwind); booleans are `0`/`1`; strings are `x` followed by dot-separated lowercase hex code
 // points (so the empty string is `x`); child lists are a parenthesised sequence.
 use oq3_syntax::ast::{self as synast, AstNode, AstToken, HasArgList, HasName, HasTextNode};
-use oq3_syntax::ast::{IsString, LiteralKind};
+use oq3_syntax::ast::LiteralKind;
 use oq3_syntax::BlockOrStmt;
 use std::panic::{catch_unwind, AssertUnwindSafe};
 
